@@ -739,8 +739,9 @@ pub fn run(args: &Args, rep: &mut Report) {
     }
 
     let thorough = args.thorough();
-    let random_fills = if thorough { 1500 } else { 100 };
-    let specs = legal_specs();
+    let random_fills = if args.miri() { 1 } else if thorough { 1500 } else { 100 };
+    // under Miri: every 37th legal spec (still all widths and both masked/unmasked shapes)
+    let specs: Vec<_> = legal_specs().into_iter().step_by(if args.miri() { 211 } else { 1 }).collect();
     cx.rep.count("legal_specs", specs.len() as u64);
     cx.rep.count(
         "legal_specs_subbyte",
@@ -765,7 +766,7 @@ pub fn run(args: &Args, rep: &mut Report) {
     }
 
     // ---- 2. operation sequences on a persistent header ---------------------------------------
-    let nseq = if thorough { 1_000_000 } else { 30_000 };
+    let nseq = if args.miri() { 20 } else if thorough { 1_000_000 } else { 30_000 };
     let seqlen = 64;
     for _ in 0..nseq {
         let f = rand_fill(&mut cx.rng);
